@@ -399,6 +399,29 @@ def c09(run: Run):
             run.add("rawlzma lc=%d lp=%d pb=%d dict=%d us=none ml=none ops=d:%s;r;d:%s" % (
                 m["lc"], m["lp"], m["pb"], d, g["payload"].hex(), m["payload"].hex()),
                 oracle=raw_hist, tag="c09:raw-reuse")
+    # exhaustive small scope (thorough): every op sequence of length <= 4 over a 9-op alphabet, d in 1..3, two limits
+    if run.tier == "thorough":
+        alpha = [("lit", 7), ("lit", 200), ("lz", 1, 1), ("lz", 2, 1), ("lz", 3, 2), ("lz", 2, 3), ("lz", 5, 1), ("lastn", 1), ("lastn", 2)]
+        import itertools
+        nexh = 0
+        for ln in (1, 2, 3, 4):
+            for seq in itertools.product(alpha, repeat=ln):
+                for d in (1, 2, 3):
+                    txt = [":".join(str(x) for x in op) for op in seq]
+                    H, exp, alive = ideal_window(list(seq), d)
+
+                    def oracle(res, meta, peak, H=bytes(H), exp=exp, alive=alive):
+                        toks = res.split(" ")
+                        got = [t.split("/")[0] for t in toks if "=" not in t]
+                        want = exp + (["ok"] if alive else [])
+                        if got != want:
+                            return "window results %s differ from the ideal history semantics %s" % (got[:12], want[:12])
+                        if alive and outfield(res) != out_repr(H):
+                            return "window output differs from the ideal history"
+                        return None
+                    run.add("win kind=circ d=%d m=none ops=%s" % (d, ";".join(txt + ["fin"])), oracle=oracle, tag="c09:ops:exhaustive", nontrivial=ln > 1)
+                    nexh += 1
+        run.extra_cov["exhaustive_window_op_sequences"] = nexh
     # operation-level: real windows vs model vs ideal semantics
     nseq = sizes(run.tier, 400, 6000)
     for i in range(nseq):
